@@ -154,3 +154,37 @@ Proof.
     + apply Permutation_map. exact Hf.
     + rewrite (map_fst_keyed (fun kv => norm (snd kv))). exact Hndf.
 Qed.
+
+(* ---- the keys of a formatted dictionary are strictly increasing ---- *)
+Definition keys_sorted (ks : list bytes) : Prop :=
+  StronglySorted (fun a b => key_ltb a b = true) ks.
+
+Lemma sorted_map_fst {A} (l : list (bytes * A)) :
+  StronglySorted (@lt_e A) l -> keys_sorted (map fst l).
+Proof.
+  induction 1 as [|x r Hs IH Hall]; cbn [map]; constructor; [exact IH|].
+  apply Forall_forall. intros k Hk. apply in_map_iff in Hk as (y & <- & Hy).
+  rewrite Forall_forall in Hall. apply Hall. exact Hy.
+Qed.
+
+Lemma dict_keys_sorted_lemma p sep l : NoDup (map fst l) ->
+  let ks := map fst (sort_entries (fmt_frags p l)) in
+  keys_sorted ks /\ Permutation ks (map fst (filter nonnull l)) /\
+  fmt_obj p sep (ODict l) =
+    (kw_ltlt ++ (if p then [cLF] else []) ++ concat (map snd (sort_entries (fmt_frags p l))) ++ kw_gtgt, false) /\
+  exists es, norm (ODict l) = ODict es /\ map fst es = ks.
+Proof.
+  intros Hnd ks.
+  assert (Hndf : NoDup (map fst (filter nonnull l))) by (apply NoDup_filter_fst; exact Hnd).
+  assert (Hfr : map fst (fmt_frags p l) = map fst (filter nonnull l))
+    by (rewrite fmt_frags_map; apply map_fst_keyed).
+  split; [|split; [|split]].
+  - subst ks. apply sorted_map_fst. apply sort_sorted. rewrite Hfr. exact Hndf.
+  - subst ks. rewrite <- Hfr. apply Permutation_map. apply sort_perm.
+  - apply fmt_obj_dict.
+  - exists (sort_entries (norm_entries l)). split; [apply norm_dict|].
+    subst ks. rewrite norm_entries_map, fmt_frags_map.
+    rewrite (sort_map (fun kv => norm (snd kv))), (sort_map (fun kv => fmt_entry p (fst kv) (snd kv))).
+    rewrite (map_fst_keyed (fun kv => norm (snd kv))), (map_fst_keyed (fun kv => fmt_entry p (fst kv) (snd kv))).
+    reflexivity.
+Qed.
